@@ -16,11 +16,17 @@ from mpilot.exceptions import MPilotError  # noqa: E402
 def mk_arr(s):
     dt = {'f': float, 'i': int, 'b': bool, 'u': numpy.uint64}[s['kind']]
     d = numpy.array(s['data'], dtype=dt).reshape(s['shape'])
+    fort = s.get('layout') == 'F' and d.ndim >= 2
+    if fort:
+        d = numpy.asfortranarray(d)         # column-major storage (a transposed raster, a Fortran-ordered file)
     if s['rep'] == 'nd':
         return d
     if s['rep'] == 'nomask':
         return numpy.ma.array(d)
-    return numpy.ma.array(d, mask=numpy.array(s['mask'], dtype=bool).reshape(s['shape']))
+    m = numpy.array(s['mask'], dtype=bool).reshape(s['shape'])
+    if fort:
+        m = numpy.asfortranarray(m)
+    return numpy.ma.array(d, mask=m)
 
 
 HOLDERS = []
